@@ -64,6 +64,10 @@ let build_arg (items : Sx.t list) : UsageModel.harg =
     | "x-hide-env" -> a := { !a with ha_hide_env = true }
     | "x-hide-env-values" -> a := { !a with ha_hide_env_values = true }
     | "x-hide-default" -> a := { !a with ha_hide_default = true }
+    | "requires" -> a := { !a with ha_requires = !a.ha_requires @ Stdlib.List.map (fun x -> (Cmd.PIsPresent, bs x)) args }
+    | "requires_if" -> (match args with
+        | [v; i] -> a := { !a with ha_requires = !a.ha_requires @ [(Cmd.PEquals (bs v), bs i)] }
+        | _ -> failwith "requires_if")
     | "x-pv" ->
       let pv = ref { pv_name = bs (hd args); pv_help = None; pv_hide = false } in
       Stdlib.List.iter (fun e -> match e with
@@ -93,12 +97,18 @@ let rec build_cmd (items : Sx.t list) : UsageModel.hcmd =
         | "disable_version_flag" -> gset (fun s -> { s with hs_no_version_flag = true })
         | "disable_help_subcommand" -> gset (fun s -> { s with hs_no_help_sub = true })
         | "subcommand_required" -> c := { !c with hc_sub_required = true }
+        | "subcommand_negates_reqs" -> c := { !c with hc_negates_reqs = true }
+        | "args_conflicts_with_subcommands" -> c := { !c with hc_args_conflicts = true }
+        | "allow_external_subcommands" -> c := { !c with hc_allow_external = true }
         | "hide" -> c := { !c with hc_hide = true }
         | x -> failwith ("help area: unsupported setting " ^ x)) l
     | "arg" ->
       if !subs <> [] then failwith "help specs list every arg before the subcommands";
       args := !args @ [build_arg l]
     | "sub" -> subs := !subs @ [build_cmd (Sx.args (hd l))]
+    | "group" -> c := { !c with hc_groups = !c.hc_groups @ [Spec.build_group l] }
+    | "x-sub-valname" -> c := { !c with hc_sub_value_name = Some (bs (hd l)) }
+    | "x-sub-heading" -> c := { !c with hc_sub_heading = Some (bs (hd l)) }
     | "x-next-line" -> gset (fun s -> { s with hs_next_line = true })
     | "x-order" -> c := { !c with hc_disp_ord = Some (n (hd l)) }
     | x -> failwith ("help area: unsupported cmd item " ^ x)) (Stdlib.List.tl items);
